@@ -501,3 +501,4 @@ PROPS['C05']['required_classes']['all'] += ['concurrent-compilations-for-differe
 PROPS['C15']['required_classes']['all'] += ['policy-file-larger-than-64KiB', 'keys-outside-the-dialect:accepted']
 PROPS['C10']['required_classes']['all'] += ['policy-that-allows-everything']
 PROPS['C13']['units'].append({'test': 'TestC13JsWasm', 'timeout': {'quick': 600, 'thorough': 900}})
+PROPS['C16']['units'].append({'test': 'TestC16HugeListing', 'timeout': {'quick': 300, 'thorough': 1200}})
